@@ -10,6 +10,7 @@ package c43
 
 import (
 	"context"
+	"encoding/hex"
 	"encoding/json"
 	"fmt"
 	"runtime"
@@ -194,6 +195,24 @@ func (w *world) apply(o Op) (res string) {
 	return "ok"
 }
 
+// usedIDs: bit s set if a record is stored under id 100+s.
+func (w *world) usedIDs() (occ uint32) {
+	w.st.View(context.Background(), func(tx kv.Tx) error {
+		bk, err := tx.Bucket([]byte(kvBuckets[0]))
+		if err != nil {
+			panic(err)
+		}
+		for sl := 1; sl < 31; sl++ {
+			k, _ := platform.ID(slotBase + sl).Encode()
+			if _, err := bk.Get(k); err == nil {
+				occ |= 1 << uint(sl)
+			}
+		}
+		return nil
+	})
+	return
+}
+
 // dump: canonical state key = every key/value of the service's kv buckets.
 func (w *world) dump() string {
 	var b strings.Builder
@@ -203,15 +222,17 @@ func (w *world) dump() string {
 			if err != nil {
 				panic(err)
 			}
-			cur, err := bk.ForwardCursor(nil)
+			cur, err := bk.Cursor() // static cursor (ForwardCursor spawns a goroutine per call)
 			if err != nil {
 				panic(err)
 			}
-			fmt.Fprintf(&b, "[%s]", name)
-			for k, v := cur.Next(); k != nil; k, v = cur.Next() {
-				fmt.Fprintf(&b, "%x=%x;", k, v)
+			b.WriteString("[" + name + "]")
+			for k, v := cur.First(); k != nil; k, v = cur.Next() {
+				b.WriteString(hex.EncodeToString(k))
+				b.WriteByte('=')
+				b.Write(v) // values are JSON documents or ids
+				b.WriteByte(';')
 			}
-			cur.Close()
 		}
 		return nil
 	})
@@ -335,7 +356,7 @@ func (w *world) check(m *model) (fs []finding, render string, classes []string) 
 		var err error
 		p, d := vlib.Guard(func() { ms, _, err = w.svc.FindMany(ctx, f) })
 		if p {
-			add("FindMany/panic", d, "FindMany("+f.String()+") "+d)
+			add("FindMany/panic", frameOf(d), "FindMany("+f.String()+") "+d)
 			return nil, ent{}, false
 		}
 		if err != nil {
@@ -427,7 +448,7 @@ func (w *world) check(m *model) (fs []finding, render string, classes []string) 
 				bs[e.Bucket] = true
 			}
 			if len(bs) > 1 {
-				add("pair-resolves-to-two-buckets/FindMany{org}", fmt.Sprintf("virtual-involved=%v", es[0].Virtual || es[len(es)-1].Virtual),
+				add("pair-listed-with-two-buckets/FindMany{org}", fmt.Sprintf("virtual-involved=%v", es[0].Virtual || es[len(es)-1].Virtual),
 					fmt.Sprintf("org %d: (%s) is listed with %d different buckets: %v", o64, k, len(bs), es))
 			} else if len(es) > 1 {
 				cls["same-pair-same-bucket-listed-twice"] = true
@@ -501,7 +522,7 @@ func (w *world) check(m *model) (fs []finding, render string, classes []string) 
 				switch {
 				case len(defs) == 1 && len(D) == 0:
 					add("empty-rp-lookup/no-result", fmt.Sprintf("default-virtual=%v", defs[0].Virtual), fmt.Sprintf("org %d db %s: default is %v but the lookup with empty rp finds nothing", o64, db, defs[0]))
-				case len(defs) == 1 && first != defs[0]:
+				case len(defs) == 1 && (first.ID != defs[0].ID || first.Bucket != defs[0].Bucket || first.DB != defs[0].DB):
 					add("empty-rp-lookup/not-the-default", fmt.Sprintf("default-virtual=%v,result-virtual=%v", defs[0].Virtual, first.Virtual), fmt.Sprintf("org %d db %s: default is %v but the lookup with empty rp returns %v", o64, db, defs[0], D))
 				case len(defs) == 1 && len(D) > 1:
 					add("empty-rp-lookup/several-results", "", fmt.Sprintf("org %d db %s: lookup with empty rp returns %v", o64, db, D))
@@ -584,7 +605,7 @@ func (w *world) check(m *model) (fs []finding, render string, classes []string) 
 				var err error
 				p, d := vlib.Guard(func() { got, err = w.svc.FindByID(ctx, org, id) })
 				if p {
-					add("FindByID/panic", d, d)
+					add("FindByID/panic", frameOf(d), d)
 					continue
 				}
 				if x.Org != o64 {
@@ -640,17 +661,43 @@ type verdict struct {
 	occ      uint32 // bit s set: id 100+s is in use (model)
 }
 
+type surface struct {
+	fs      []finding
+	classes []string
+}
+
+var (
+	surfaceCache sync.Map // (state key, model key) -> surface verdict; only used by the explorer
+	useCache     bool
+)
+
+func (m *model) key() string {
+	var sl []int
+	for s := range m.M {
+		sl = append(sl, s)
+	}
+	sort.Ints(sl)
+	var b strings.Builder
+	for _, s := range sl {
+		fmt.Fprintf(&b, "%d=%v;", s, m.M[s])
+	}
+	fmt.Fprintf(&b, "t=%v", m.Tainted)
+	return b.String()
+}
+
+func frameOf(d string) string {
+	if i := strings.LastIndex(d, "@ "); i >= 0 {
+		return strings.TrimSuffix(d[i+2:], ".")
+	}
+	return "?"
+}
+
 func isV(o Op) bool { return o.K == "updateV" || o.K == "deleteV" }
 
-// runCase replays the history on a fresh real service and judges its last op. The surface of the
-// pre-state is only inspected (second pass) when the post-state shows findings, to tell which are new.
-func runCase(cs Case) verdict {
-	v := runCase1(cs, false)
-	if v.nfind > 0 {
-		v = runCase1(cs, true)
-	}
-	return v
-}
+// runCase replays the history on a fresh real service and judges its last op. The findings of the
+// pre-state (needed to tell which findings the last op introduced) come from the surface cache when
+// exploring (the pre-state was judged when it was first reached) and are recomputed when replaying.
+func runCase(cs Case) verdict { return runCase1(cs, false) }
 
 func runCase1(cs Case, withPre bool) verdict {
 	w := newWorld()
@@ -659,8 +706,19 @@ func runCase1(cs Case, withPre bool) verdict {
 	var preF []finding
 	for i, o := range cs.History {
 		last := i == n-1
-		if last && withPre {
-			preF, _, _ = w.check(m)
+		if last {
+			if withPre || !useCache {
+				preF, _, _ = w.check(m)
+			} else {
+				pk := w.dump() + "#" + m.key()
+				if cached, ok := surfaceCache.Load(pk); ok {
+					preF = cached.(surface).fs
+				} else {
+					var cl []string
+					preF, _, cl = w.check(m)
+					surfaceCache.Store(pk, surface{preF, cl})
+				}
+			}
 		}
 		app := m.applicable(o)
 		before := ""
@@ -682,7 +740,7 @@ func runCase1(cs Case, withPre bool) verdict {
 		v.res, v.app = res, app
 		var fs []finding
 		if strings.HasPrefix(res, "PANIC") {
-			fs = append(fs, finding{"op/panic", o.K, res})
+			fs = append(fs, finding{"op/panic", o.K + "@" + frameOf(res), res})
 		}
 		if isV(o) {
 			// no prediction
@@ -695,14 +753,35 @@ func runCase1(cs Case, withPre bool) verdict {
 		}
 		// an inapplicable op (duplicate pair / unknown id / wrong org) must leave the model's mappings as they are:
 		// the model is simply not stepped, and the listing comparison below judges it.
-		cf, render, classes := w.check(m)
+		v.key = w.dump()
+		var cf []finding
+		var render string
+		var classes []string
+		ck := v.key + "#" + m.key()
+		if cached, ok := surfaceCache.Load(ck); ok && !withPre && useCache {
+			// the surface is a function of the stored state; its verdict a function of (state, model)
+			sf := cached.(surface)
+			cf, classes = sf.fs, append([]string{}, sf.classes...)
+		} else {
+			cf, render, classes = w.check(m)
+			if useCache {
+				surfaceCache.Store(ck, surface{cf, append([]string{}, classes...)})
+			}
+		}
 		fs = append(fs, cf...)
+		if (o.K == "create" || o.K == "update") && app && res == "ok" && o.Def {
+			if got, err := w.svc.FindByID(context.Background(), platform.ID(o.Org), platform.ID(slotBase+o.Slot)); err == nil && got.Default {
+				classes = append(classes, "explicit-default-request:honoured")
+			} else {
+				classes = append(classes, "explicit-default-request:NOT-honoured")
+			}
+		}
 		v.nfind = len(fs)
 		for sl := range m.M {
 			v.occ |= 1 << uint(sl)
 		}
+		v.occ |= w.usedIDs() // and whatever the store really holds under an id of the pool
 		v.tainted = m.Tainted
-		v.key = w.dump()
 		v.render = render
 		v.classes = classes
 		// report only what this transition introduced
@@ -714,17 +793,14 @@ func runCase1(cs Case, withPre bool) verdict {
 			if pre[f.kind+"|"+f.feat] {
 				continue
 			}
-			feat := "after=" + o.K
-			if o.K == "create" || o.K == "update" || o.K == "updateV" {
-				feat += fmt.Sprintf(",default=%v", o.Def)
-			}
-			if !isV(o) {
-				feat += fmt.Sprintf(",applicable=%v", app)
-			}
 			if m.Tainted {
-				feat += ",virtual-id-op-in-history"
+				// one root cause (a stored record for a virtual mapping's id): one class per violated clause
+				v.sigs = append(v.sigs, vlib.JoinSig(f.kind, "after-accepted-update-or-delete-of-a-virtual-mapping-id"))
+				v.texts = append(v.texts, f.text)
+				continue
 			}
-			v.sigs = append(v.sigs, vlib.JoinSig(f.kind, f.feat, feat))
+			// clauses about the state carry the features of the state (op-level findings name the op in their features)
+			v.sigs = append(v.sigs, vlib.JoinSig(f.kind, f.feat))
 			v.texts = append(v.texts, f.text)
 		}
 		return v
@@ -737,9 +813,11 @@ func runCase1(cs Case, withPre bool) verdict {
 // ---------------------------------------------------------------------------------------
 
 type bounds struct {
-	slots      int
-	bothBkts   bool
-	virtualOps bool
+	name     string
+	slots    int
+	bothBkts bool
+	vIDs     []uint64 // ids of virtual mappings that update/delete may be aimed at
+	vRPs     []string
 }
 
 func opsFor(b bounds) []Op {
@@ -755,7 +833,7 @@ func opsFor(b bounds) []Op {
 					for bi := 0; bi < nb; bi++ {
 						bidx := bi
 						if !b.bothBkts {
-							bidx = s % 2
+							bidx = (s + 1) % 2
 						}
 						for _, def := range []bool{false, true} {
 							ops = append(ops, Op{K: "create", Slot: s, Org: uint64(org), DB: db, RP: rp, Bkt: bidx, Def: def})
@@ -773,17 +851,17 @@ func opsFor(b bounds) []Op {
 			ops = append(ops, Op{K: "delete", Slot: s, Org: uint64(org)})
 		}
 	}
-	if b.virtualOps {
-		for _, bk := range buckets {
-			if bk.Name == "plain" {
+	for _, bk := range buckets {
+		for _, vid := range b.vIDs {
+			if uint64(bk.ID) != vid {
 				continue
 			}
-			for _, rp := range rps {
+			for _, rp := range b.vRPs {
 				for _, def := range []bool{false, true} {
-					ops = append(ops, Op{K: "updateV", Org: uint64(bk.Org), VID: uint64(bk.ID), RP: rp, Def: def})
+					ops = append(ops, Op{K: "updateV", Org: uint64(bk.Org), VID: vid, RP: rp, Def: def})
 				}
 			}
-			ops = append(ops, Op{K: "deleteV", Org: uint64(bk.Org), VID: uint64(bk.ID)})
+			ops = append(ops, Op{K: "deleteV", Org: uint64(bk.Org), VID: vid})
 		}
 	}
 	return ops
@@ -799,6 +877,7 @@ type tres struct {
 }
 
 func bfs(c *vlib.Ctx, b bounds) {
+	useCache = true
 	w0 := newWorld()
 	k0 := w0.dump()
 	seen := map[string]bool{k0: true}
@@ -812,12 +891,12 @@ func bfs(c *vlib.Ctx, b bounds) {
 	depth := 0
 	par := runtime.GOMAXPROCS(0)
 	ops := opsFor(b)
-	c.Extra("ops_per_state", int64(len(ops)))
+	c.Extra("ops_per_state_"+b.name, int64(len(ops)))
 	for len(frontier) > 0 {
 		var next []node
 		for lo := 0; lo < len(frontier); lo += 4 * par {
 			if c.Expired() {
-				c.Cap(fmt.Sprintf("budget hit at BFS depth %d; all shallower levels complete", depth))
+				c.Cap(fmt.Sprintf("budget hit in phase %s at BFS depth %d; all shallower levels complete", b.name, depth))
 				return
 			}
 			hi := min(lo+4*par, len(frontier))
@@ -866,7 +945,7 @@ func bfs(c *vlib.Ctx, b bounds) {
 						c.State(r.v.key)
 						next = append(next, node{h, r.v.occ})
 						if c.WantSample() && len(h) >= 3 {
-							c.Sample(map[string]any{"history": histString(h), "surface": r.v.render})
+							c.Sample(map[string]any{"history": histString(h), "surface": runCase1(Case{History: h}, true).render})
 						}
 					}
 				}
@@ -874,9 +953,10 @@ func bfs(c *vlib.Ctx, b bounds) {
 		}
 		frontier = next
 		depth++
-		c.Logf("depth %d: %d new states, %d total", depth, len(next), len(seen))
+		c.Logf("phase %s depth %d: %d new states, %d total", b.name, depth, len(next), len(seen))
 	}
-	c.Extra("bfs_depth", int64(depth))
+	c.Extra("bfs_depth_"+b.name, int64(depth))
+	c.Extra("states_"+b.name, int64(len(seen)))
 }
 
 func TestCheck(t *testing.T) {
@@ -894,20 +974,30 @@ func TestCheck(t *testing.T) {
 			"a database whose only mappings are virtual ones derived from 'db/rp' bucket names has no default by construction; the 'exactly one default' clause is applied to databases with at least one stored mapping (at most one default is required everywhere)",
 			"after an accepted update/delete aimed at a virtual mapping's id the set of stored mappings is not predicted by the model; only the statement's invariants on the observable surface are checked from then on",
 		},
-		QuickBudgetS: 45, ThoroughBudgetS: 780,
+		QuickBudgetS: 100, ThoroughBudgetS: 1200,
 		Run: func(c *vlib.Ctx) {
-			b := bounds{slots: 2}
-			if c.Thorough() {
-				b = bounds{slots: 3, bothBkts: true, virtualOps: true}
+			phases := []bounds{
+				{name: "A", slots: 2},
+				{name: "B", slots: 1, vIDs: []uint64{11, 21}, vRPs: []string{"autogen", "rp1"}},
 			}
-			bfs(c, b)
+			if c.Thorough() {
+				phases = []bounds{
+					{name: "A", slots: 3, bothBkts: true},
+					{name: "B", slots: 1, bothBkts: true, vIDs: []uint64{11, 12, 21}, vRPs: rps},
+					{name: "C", slots: 2, vIDs: []uint64{11, 21}, vRPs: []string{"autogen", "rp1"}},
+				}
+			}
+			for _, b := range phases {
+				bfs(c, b)
+			}
 		},
 		Replay: func(c *vlib.Ctx, raw json.RawMessage) (bool, string) {
 			var cs Case
 			if err := json.Unmarshal(raw, &cs); err != nil || len(cs.History) == 0 {
 				return false, fmt.Sprint("bad case: ", err)
 			}
-			v := runCase(cs)
+			useCache = false
+			v := runCase1(cs, true)
 			return len(v.sigs) > 0, fmt.Sprintf("history {%s}: last op returned %s; surface: %s; introduced: %v", histString(cs.History), v.res, v.render, v.sigs)
 		},
 	})
